@@ -74,6 +74,15 @@ def run(ctx):
                 ctx.case(key=('delta', c['n'], c['i'], v), nontrivial=len(c['n']) >= 3)
                 ctx.check(F.is_wellformed(Y, c['n']) and close(F.dense(Y), ref), 'delta:value',
                           'delta(%s, %s, %s) differs from the specification' % (c['n'], c['i'], v), case=row)
+                # every position may equally be given from the end (i - n): per mode, in any combination, as list or array
+                for mask_ in range(1, 1 << len(c['n'])):
+                    if len(c['n']) > 3 and mask_ not in (1, (1 << len(c['n'])) - 1, 5):
+                        continue
+                    ineg = [ik - nk if (mask_ >> k_) & 1 else ik for k_, (ik, nk) in enumerate(zip(c['i'], c['n']))]
+                    for form in (list(ineg), np.array(ineg)):
+                        Yn = teneva.delta(c['n'], form, v)
+                        ctx.check(F.is_wellformed(Yn, c['n']) and close(F.dense(Yn), ref), 'delta:value',
+                                  'delta(%s, %s, %s) (positions counted from the end) differs from delta at %s' % (c['n'], ineg, v, c['i']), case=row)
         elif kind == 'vdelta':
             for v in (1.0, -4.0, 0.5):
                 raised = False
